@@ -1,5 +1,5 @@
 (* C06 — unsupported operators fail loudly iff reached; type mismatch never errors. *)
-From Rules Require Import Spec Eval Refinement SemProps OpsProps Theorems.
+From Rules Require Import Spec Eval Refinement SemProps OpsProps Theorems UndecidedProofs.
 
 (* ErrInvalidOperation exactly for the table of the statement, whatever the operands *)
 Theorem C06_table :
@@ -36,6 +36,14 @@ Theorem C06_final_right :
     sem lower top (QLogic isor l r) d = SFail e d'.
 Proof. exact fail_sticky_right. Qed.
 Print Assumptions C06_final_right.
+
+(* an absent attribute or an attribute of the wrong type is never an error: a supported
+   operator never fails, whatever the operands (it may only panic on a hostile Stringer) *)
+Theorem C06_mismatch_never_errors :
+  forall lower t op l r, unsupported t op = false ->
+    op_apply lower t op l r = Panic \/ exists b e, op_apply lower t op l r = Ok (b, e) /\ e <> Some EInvalidOperation.
+Proof. exact supported_never_fails. Qed.
+Print Assumptions C06_mismatch_never_errors.
 
 (* `a gt null or b le "bc" or k in [1]` on {} : ErrInvalidOperation, nothing later matters *)
 Example C06_example :
